@@ -52,6 +52,7 @@ def run(ctx, sess, P, G, T, reach, roots, exc):
     ctx.rule('C10.28', 'no stale pointer into the read buffer: a local pointer taken from <core>.buf->start is not used after a call that can reallocate that buffer (the chunk read and everything that reaches it) unless it is taken again first')
     ctx.rule('C10.30', 'sizes computed in 32 bits do not wrap for any accepted definition: every 32-bit product in the writer and core units that involves a definition parameter (samples_per_data, sample_decimate_factor, entries_per_summary, summary_decimate_factor) stays below 2^32 when each parameter is at most twice the limit the validator enforces (alignment rounds up) and a sample is at most 64 bits (interval evaluation)')
     ctx.rule('C10.31', 'a refused definition leaves the stored definition alone: duplicate id, missing source and invalid parameters are rejected before anything is copied into the live definition - later writes size their copies and buffers from it (shared with C13.2)')
+    ctx.rule('C10.32', 'the bit copy that assembles sub-byte samples in the caller\'s buffer writes only the bytes that hold requested samples: traced for destination and source bit offsets 0..15 and bit counts around the byte and word boundaries, every store and every memcpy lies in [dst + dst_bit / 8, dst + ceil((dst_bit + nbits) / 8))')
     ctx.rule('C10.29', 'conversion reads what the chunk holds: where the samples of the chunk in the read buffer are converted (jls_dt_buffer_to_f64 with the payload as source), the count derives from the entry count in that chunk\'s header (clamped to the block size the scratch was allocated for), not from the definition alone')
     ctx.rule('C10.12', 'no read of uninitialised instance memory: every field of a malloc\'ed instance that is read anywhere is initialised before the instance is published')
     r4(ctx, P)
@@ -82,6 +83,7 @@ def run(ctx, sess, P, G, T, reach, roots, exc):
     c10c.r28(ctx, P)
     c10c.r29(ctx, P)
     c10c.r30(ctx, P, sess)
+    c10c.r32(ctx, P)
     from .common import relay
     from . import c09 as _src_c09
     relay(ctx, sess, _src_c09.run, {'C09.9': 'C10.26'}, minimum=1)
